@@ -40,7 +40,10 @@ class SubProcess(zope.testrunner.feature.Feature):
 
     def report(self):
         sys.stdout.close()
-        # Communicate with the parent.  The protocol is obvious:
+        # Communicate with the parent.  The protocol is obvious (start on
+        # a fresh line: something may have written to the real stderr
+        # without terminating its last line):
+        print(file=self.original_stderr)
         print(self.runner.ran,
               len(self.runner.failures), len(self.runner.errors),
               file=self.original_stderr)
